@@ -523,6 +523,53 @@ def op_twin_b(d):
     return _twin("b")
 
 
+# ---- hand-written SQLAlchemy models that share column *types*: one carries per-column extras (server_default, unique, index), the other none --------------
+# anything kept per column type (a lookup table of pre-built entries, a memo on the type name) leaks the first model's extras into the second
+SQL_MODELS = {
+    "extras": (
+        'class Article(Base):\n    __tablename__ = "article"\n\n    id = Column(Integer, primary_key=True, server_default="0")\n'
+        '    status = Column(String, server_default="draft", nullable=False, unique=True, index=True)\n    live = Column(Boolean, server_default="false", default=False)\n'
+        '    score = Column(Float, server_default="1.5", comment="the score")\n',
+        'article = Table("article", metadata, Column("id", Integer, primary_key=True, server_default="0"), Column("status", String, server_default="draft", unique=True),'
+        ' Column("payload", JSON, server_default="{}"))\n',
+    ),
+    "plain": (
+        'class Note(Base):\n    __tablename__ = "note"\n\n    id = Column(Integer, primary_key=True)\n'
+        '    title = Column(String, comment="title of the note")\n    done = Column(Boolean, default=False)\n    weight = Column(Float)\n    meta = Column(JSON)\n',
+        'note = Table("note", metadata, Column("id", Integer, primary_key=True), Column("title", String, comment="title of the note"), Column("meta", JSON))\n',
+    ),
+}
+
+
+def _sql_models(which):
+    import cdd.json_schema.emit
+    import cdd.sqlalchemy.parse
+    from mc import formats as F
+
+    cls_src, tbl_src = SQL_MODELS[which]
+    out = []
+    for ir in (cdd.sqlalchemy.parse.sqlalchemy(ast.parse(cls_src).body[0]), cdd.sqlalchemy.parse.sqlalchemy_table(ast.parse(tbl_src).body[0])):
+        out.append(ir_text(ir))
+        for fmt in ("sqlalchemy", "sqlalchemy_table", "sqlalchemy_hybrid"):
+            try:
+                out.append(F.render(F.emit_ast(fmt, deepcopy(ir), "rest", True)))
+            except Exception as e:
+                out.append("%s raises %s" % (fmt, type(e).__name__))
+        try:
+            out.append(json.dumps(cdd.json_schema.emit.json_schema(deepcopy(ir), "https://example.com/m.json"), default=repr))
+        except Exception as e:
+            out.append("json_schema raises %s" % type(e).__name__)
+    return "\n#####\n".join(out)
+
+
+def op_sql_model_extras(d):
+    return _sql_models("extras")
+
+
+def op_sql_model_plain(d):
+    return _sql_models("plain")
+
+
 OPS = OrderedDict(
     (
         ("fn_subset", op_fn_subset),
@@ -552,5 +599,7 @@ OPS = OrderedDict(
         ("parse_json_schema_and_sqlalchemy", op_parse_json_schema_and_sqlalchemy),
         ("twin_a", op_twin_a),
         ("twin_b", op_twin_b),
+        ("sql_model_extras", op_sql_model_extras),
+        ("sql_model_plain", op_sql_model_plain),
     )
 )
